@@ -12,7 +12,7 @@ import (
 func lightTransfers(w *world.World, o menuOpts) []world.Action {
 	var acts []world.Action
 	for _, from := range users(o) {
-		if h := held(w, from, "F"); h > 0 {
+		if h := held(w, from, tF); h > 0 {
 			for _, to := range users(o) {
 				if string(to) != string(from) {
 					acts = append(acts, uni.ESDTTransfer(from, to, uni.F, 1))
@@ -20,7 +20,7 @@ func lightTransfers(w *world.World, o menuOpts) []world.Action {
 			}
 			acts = append(acts, uni.ESDTTransfer(from, uni.S0, uni.F, 1, []byte("f")))
 		}
-		if h := held(w, from, "S\x01"); h > 0 {
+		if h := held(w, from, tS1); h > 0 {
 			for _, to := range users(o) {
 				if string(to) != string(from) {
 					acts = append(acts, uni.NFTTransfer(from, to, uni.S, 1, 1))
@@ -126,7 +126,7 @@ func transferMenuLight(w *world.World, o menuOpts) []world.Action {
 				continue
 			}
 			var batch []world.Action
-			if h := held(w, from, "F"); h > 0 {
+			if h := held(w, from, tF); h > 0 {
 				batch = append(batch, uni.ESDTTransfer(from, to, uni.F, 1))
 				batch = append(batch, uni.Multi(from, to, []uni.Ent{{Tok: uni.F, Nonce: 0, Q: 1}}))
 				if h > 1 {
@@ -134,10 +134,10 @@ func transferMenuLight(w *world.World, o menuOpts) []world.Action {
 					acts = append(acts, uni.ESDTTransfer(from, to, uni.F, h), uni.Multi(from, to, []uni.Ent{{Tok: uni.F, Nonce: 0, Q: h}}))
 				}
 			}
-			if h := held(w, from, "S\x01"); h > 0 {
+			if h := held(w, from, tS1); h > 0 {
 				batch = append(batch, uni.NFTTransfer(from, to, uni.S, 1, 1))
 				batch = append(batch, uni.Multi(from, to, []uni.Ent{{Tok: uni.S, Nonce: 1, Q: 1}}))
-				if held(w, from, "F") > 0 {
+				if held(w, from, tF) > 0 {
 					batch = append(batch, uni.Multi(from, to, []uni.Ent{{Tok: uni.S, Nonce: 1, Q: 1}, {Tok: uni.F, Nonce: 0, Q: 1}}))
 				}
 				if h > 1 {
@@ -164,14 +164,14 @@ func supplyMenuLight(w *world.World, o menuOpts) []world.Action {
 	var acts []world.Action
 	for _, a := range users(o) {
 		acc := w.Get(a)
-		if spec.HasRole(acc, "F", vmcommon.ESDTRoleLocalMint) || o.thorough {
+		if spec.HasRole(acc, tF, vmcommon.ESDTRoleLocalMint) || o.thorough {
 			acts = append(acts, uni.Call(a, a, vmcommon.BuiltInFunctionESDTLocalMint, uni.F, uni.Big(1)))
 			acts = append(acts, uni.Call(a, a, vmcommon.BuiltInFunctionESDTLocalBurn, uni.F, uni.Big(1)))
 		}
-		if held(w, a, "F") > 0 {
+		if held(w, a, tF) > 0 {
 			acts = append(acts, uni.Call(a, uni.ESDT, vmcommon.BuiltInFunctionESDTBurn, uni.F, uni.Big(1)))
 		}
-		if spec.HasRole(acc, "S", vmcommon.ESDTRoleNFTCreate) || o.thorough {
+		if spec.HasRole(acc, tS, vmcommon.ESDTRoleNFTCreate) || o.thorough {
 			acts = append(acts, uni.Create(a, uni.S, 1))
 			acts = append(acts, uni.Call(a, a, vmcommon.BuiltInFunctionESDTNFTAddQuantity, uni.S, uni.Big(1), uni.Big(1)))
 			acts = append(acts, uni.Call(a, a, vmcommon.BuiltInFunctionESDTNFTBurn, uni.S, uni.Big(1), uni.Big(1)))
